@@ -152,6 +152,17 @@ func vSame(a, b Value) bool {
 	case PtrLocalV:
 		y, ok := b.(PtrLocalV)
 		return ok && x.Obj == y.Obj
+	case LocV:
+		y, ok := b.(LocV)
+		if !ok || x.Expr != y.Expr || len(x.Path) != len(y.Path) {
+			return false
+		}
+		for i := range x.Path {
+			if x.Path[i] != y.Path[i] {
+				return false
+			}
+		}
+		return true
 	case TupleV:
 		y, ok := b.(TupleV)
 		if !ok || len(x) != len(y) {
